@@ -15,6 +15,9 @@ import IcontractModel.Spec.Frames
 import IcontractModel.Inv
 import IcontractModel.Stack
 import IcontractModel.Conc
+import IcontractModel.Spec.PyEval
+import IcontractModel.Represent
+import IcontractModel.Lemmas.ExprWf
 open Lean Icontract
 
 deriving instance FromJson, ToJson for Exc
@@ -351,6 +354,232 @@ def run (c : MetaCase) : Json :=
 
 end MetaRun
 
+/-! ## expression domain: the re-evaluator and Python's evaluation under a concrete `Ops` fragment -/
+
+namespace ExRun
+open Icontract.Ex
+
+partial def valOfJson (j : Json) : Except String Ex.Val :=
+  match j with
+  | .str "none" => .ok .none
+  | _ =>
+    match j.getObjVal? "int" with
+    | .ok v => (v.getObjValAs? Int "i").map Ex.Val.int
+    | .error _ =>
+    match j.getObjVal? "bool" with
+    | .ok v => (v.getObjValAs? Bool "b").map Ex.Val.bool
+    | .error _ =>
+    match j.getObjVal? "str" with
+    | .ok v => (v.getObjValAs? String "s").map Ex.Val.str
+    | .error _ =>
+    match j.getObjVal? "list" with
+    | .ok v => do
+        let xs ← v.getObjValAs? (Array Json) "xs"
+        let vs ← xs.toList.mapM valOfJson
+        pure (.list vs)
+    | .error _ =>
+    match j.getObjVal? "obj" with
+    | .ok v => (v.getObjValAs? Nat "id").map Ex.Val.obj
+    | .error _ =>
+    match j.getObjVal? "fn" with
+    | .ok v => (v.getObjValAs? String "name").map Ex.Val.fn
+    | .error _ => .error s!"bad value {j.compress}"
+
+partial def valJson : Ex.Val → Json
+  | .int i => Json.mkObj [("int", Json.mkObj [("i", Json.num (JsonNumber.fromInt i))])]
+  | .bool b => Json.mkObj [("bool", Json.mkObj [("b", Json.bool b)])]
+  | .none => jStr "none"
+  | .str s => Json.mkObj [("str", Json.mkObj [("s", jStr s)])]
+  | .list xs => Json.mkObj [("list", Json.mkObj [("xs", jArr (xs.map valJson))])]
+  | .obj i => Json.mkObj [("obj", Json.mkObj [("id", jNat i)])]
+  | .fn n => Json.mkObj [("fn", Json.mkObj [("name", jStr n)])]
+
+partial def exprOfJson (j : Json) : Except String Expr := do
+  let k ← j.getObjValAs? String "k"
+  let i ← j.getObjValAs? Nat "id"
+  let sub (f : String) : Except String Expr := do exprOfJson (← j.getObjVal? f)
+  let subs (f : String) : Except String (List Expr) := do
+    let a ← j.getObjValAs? (Array Json) f
+    a.toList.mapM exprOfJson
+  match k with
+  | "const" => do pure (.const i (← valOfJson (← j.getObjVal? "v")))
+  | "name" => do pure (.name i (← j.getObjValAs? String "n"))
+  | "attr" => do pure (.attr i (← sub "e") (← j.getObjValAs? String "a"))
+  | "subscr" => do pure (.subscr i (← sub "e") (← sub "i"))
+  | "call" => do pure (.call i (← sub "f") (← subs "args"))
+  | "unary" => do
+      let op ← j.getObjValAs? String "op"
+      let o : UnOp := if op == "not" then .not else if op == "neg" then .neg else if op == "pos" then .pos else .inv
+      pure (.unary i o (← sub "e"))
+  | "bin" => do pure (.bin i (← j.getObjValAs? String "op") (← sub "l") (← sub "r"))
+  | "boolop" => do pure (.boolop i (← j.getObjValAs? Bool "isAnd") (← subs "es"))
+  | "compare" => do
+      let ops ← j.getObjValAs? (Array String) "ops"
+      let cs ← subs "cs"
+      pure (.compare i (← sub "left") (ops.toList.zip cs))
+  | "ifexp" => do pure (.ifexp i (← sub "c") (← sub "t") (← sub "e"))
+  | "display" => do pure (.display i (← subs "es"))
+  | "comp" => do pure (.comp i ((← j.getObjValAs? (Array String) "targets").toList) (← subs "inner"))
+  | _ => .error s!"unknown expr kind {k}"
+
+def toInt? : Ex.Val → Option Int
+  | .int i => some i
+  | .bool b => some (if b then 1 else 0)
+  | _ => none
+
+partial def valEq : Ex.Val → Ex.Val → Bool
+  | .none, .none => true
+  | .str a, .str b => a == b
+  | .list a, .list b => a.length == b.length && (a.zip b).all (fun p => valEq p.1 p.2)
+  | .obj a, .obj b => a == b
+  | .fn a, .fn b => a == b
+  | a, b => match toInt? a, toInt? b with | some x, some y => x == y | _, _ => false
+
+partial def valLt : Ex.Val → Ex.Val → Except Ex.Exc Bool
+  | .str a, .str b => .ok (a < b)
+  | .list a, .list b =>
+      let rec go : List Ex.Val → List Ex.Val → Except Ex.Exc Bool
+        | [], [] => .ok false
+        | [], _ :: _ => .ok true
+        | _ :: _, [] => .ok false
+        | x :: xs, y :: ys => if valEq x y then go xs ys else valLt x y
+      go a b
+  | a, b => match toInt? a, toInt? b with | some x, some y => .ok (x < y) | _, _ => .error "TypeError"
+
+def truthOf : Ex.Val → Bool
+  | .int i => i != 0
+  | .bool b => b
+  | .none => false
+  | .str s => !s.isEmpty
+  | .list xs => !xs.isEmpty
+  | _ => true
+
+def indexList (xs : List Ex.Val) (i : Int) : Except Ex.Exc Ex.Val :=
+  let n : Int := xs.length
+  let j := if i < 0 then i + n else i
+  if j < 0 || j ≥ n then .error "IndexError" else .ok (xs.getD j.toNat .none)
+
+structure Tables where
+  attrs : List (Nat × String × Ex.Val)
+  comps : List (Nat × Option Ex.Val)
+
+def concreteOps (t : Tables) : Ops where
+  unary := fun op v => match op, toInt? v with
+    | .neg, some i => .ok (.int (-i))
+    | .pos, some i => .ok (.int i)
+    | .inv, some i => .ok (.int (-i - 1))
+    | _, _ => .error "TypeError"
+  bin := fun op a b =>
+    match op, a, b with
+    | "+", .list x, .list y => .ok (.list (x ++ y))
+    | "+", .str x, .str y => .ok (.str (x ++ y))
+    | "*", .list x, .int n => .ok (.list ((List.replicate n.toNat x).flatten))
+    | "*", .int n, .list x => .ok (.list ((List.replicate n.toNat x).flatten))
+    | "*", .str x, .int n => .ok (.str (String.join (List.replicate n.toNat x)))
+    | "*", .int n, .str x => .ok (.str (String.join (List.replicate n.toNat x)))
+    | _, _, _ =>
+      match toInt? a, toInt? b with
+      | some x, some y =>
+        if op == "+" then .ok (.int (x + y)) else if op == "-" then .ok (.int (x - y))
+        else if op == "*" then .ok (.int (x * y))
+        else if op == "//" then (if y == 0 then .error "ZeroDivisionError" else .ok (.int (Int.fdiv x y)))
+        else if op == "%" then (if y == 0 then .error "ZeroDivisionError" else .ok (.int (Int.fmod x y)))
+        else .error "NotImplemented"
+      | _, _ => .error "TypeError"
+  cmp := fun op a b =>
+    if op == "==" then .ok (.bool (valEq a b)) else if op == "!=" then .ok (.bool (!valEq a b))
+    else if op == "<" then (valLt a b).map Ex.Val.bool
+    else if op == ">" then (valLt b a).map Ex.Val.bool
+    else if op == "<=" then (do let l ← valLt a b; pure (.bool (l || valEq a b)))
+    else if op == ">=" then (do let l ← valLt b a; pure (.bool (l || valEq a b)))
+    else if op == "is" then .ok (.bool (match a, b with | .none, .none => true | .bool x, .bool y => x == y | _, _ => false))
+    else if op == "is not" then .ok (.bool (!(match a, b with | .none, .none => true | .bool x, .bool y => x == y | _, _ => false)))
+    else if op == "in" then (match b with | .list xs => .ok (.bool (xs.any (valEq a))) | _ => .error "TypeError")
+    else if op == "not in" then (match b with | .list xs => .ok (.bool (!xs.any (valEq a))) | _ => .error "TypeError")
+    else .error "NotImplemented"
+  truth := fun v => .ok (truthOf v)
+  attr := fun v a => match v with
+    | .obj i => (match t.attrs.find? (fun p => p.1 == i && p.2.1 == a) with | some p => .ok p.2.2 | none => .error "AttributeError")
+    | _ => .error "AttributeError"
+  subscr := fun v k => match v, toInt? k with
+    | .list xs, some i => indexList xs i
+    | _, _ => .error "TypeError"
+  call := fun f args => match f, args with
+    | .fn "len", [.list xs] => .ok (.int xs.length)
+    | .fn "len", [.str s] => .ok (.int s.length)
+    | .fn "abs", [v] => (match toInt? v with | some i => .ok (.int i.natAbs) | none => .error "TypeError")
+    | .fn "bool", [v] => .ok (.bool (truthOf v))
+    | .fn "min", [a, b] => (do let l ← valLt b a; pure (if l then b else a))
+    | .fn "max", [a, b] => (do let l ← valLt a b; pure (if l then b else a))
+    | .fn "sum", [.list xs] => (match xs.mapM toInt? with | some is => .ok (.int (is.foldl (· + ·) 0)) | none => .error "TypeError")
+    | _, _ => .error "NotImplemented"
+  comp := fun i _ => match t.comps.find? (fun p => p.1 == i) with
+    | some (_, some v) => .ok v
+    | _ => .error "CompError"
+
+structure ExprCase where
+  expr : Json
+  names : List (String × Json)
+  builtins : List String
+  attrs : List (Nat × String × Json)
+  comps : List (Nat × Option Json)
+
+def logJson (l : Log) : Json := jArr (l.map fun p => jArr [jNat p.1, valJson p.2])
+
+def run (j : Json) : Except String Json := do
+  let e ← exprOfJson (← j.getObjVal? "expr")
+  let namesJ ← j.getObjValAs? (Array Json) "names"
+  let names ← namesJ.toList.mapM (fun p => do
+    let a ← (fromJson? p : Except String (Array Json))
+    let n ← (fromJson? a[0]! : Except String String)
+    let v ← valOfJson a[1]!
+    pure (n, v))
+  let bi ← j.getObjValAs? (List String) "builtins"
+  let attrsJ ← j.getObjValAs? (Array Json) "attrs"
+  let attrs ← attrsJ.toList.mapM (fun p => do
+    let a ← (fromJson? p : Except String (Array Json))
+    pure ((← (fromJson? a[0]! : Except String Nat)), (← (fromJson? a[1]! : Except String String)), (← valOfJson a[2]!)))
+  let compsJ ← j.getObjValAs? (Array Json) "comps"
+  let comps ← compsJ.toList.mapM (fun p => do
+    let a ← (fromJson? p : Except String (Array Json))
+    let i ← (fromJson? a[0]! : Except String Nat)
+    if a[1]!.isNull then pure (i, none) else pure (i, some (← valOfJson a[1]!)))
+  let ops := concreteOps { attrs := attrs, comps := comps }
+  let env : Env := { names := names, builtins := bi.map (fun n => (n, Ex.Val.fn n)) }
+  let py := pyEval ops env e
+  let vr := visit ops env.builtins (Tbl.ofNames names) e
+  let inner := innerIds e
+  let textsJ := (j.getObjValAs? (Array Json) "texts").toOption.getD #[]
+  let texts ← textsJ.toList.mapM (fun p => do
+    let a ← (fromJson? p : Except String (Array Json))
+    pure ((← (fromJson? a[0]! : Except String Nat)), (← (fromJson? a[1]! : Except String String))))
+  let text : Nat → String := fun i => match texts.find? (fun p => p.1 == i) with | some p => p.2 | none => s!"<node {i}>"
+  let lookupNames := (j.getObjValAs? (List String) "lookupNames").toOption.getD []
+  let condParams := (j.getObjValAs? (List String) "condParams").toOption.getD []
+  let kwJ := (j.getObjValAs? (Array Json) "kwargs").toOption.getD #[]
+  let kw ← kwJ.toList.mapM (fun p => do
+    let a ← (fromJson? p : Except String (Array Json))
+    let n ← (fromJson? a[0]! : Except String String)
+    let v ← valOfJson a[1]!
+    pure (n, v))
+  let lines := collectLines text (fun n => lookupNames.contains n) vr.log [] e
+  let pairs := reprPairs lines condParams kw
+  let pairJson (l : List (String × Ex.Val)) : Json := jArr (l.map fun p => jArr [jStr p.1, valJson p.2])
+  pure (Json.mkObj [
+    ("lines", pairJson lines),
+    ("pairs", pairJson pairs),
+    ("py", match py with
+      | .ok (v, l) => Json.mkObj [("value", valJson v), ("log", logJson l)]
+      | .error ex => Json.mkObj [("exc", jStr ex)]),
+    ("visit", Json.mkObj [
+      ("out", match vr.out with | .ok (some v) => valJson v | .ok none => jStr "PLACEHOLDER" | .error ex => Json.mkObj [("exc", jStr ex)]),
+      ("log", logJson vr.log),
+      ("outerLog", logJson (vr.log.filter (fun p => !inner.contains p.1)))]),
+    ("wf", boolJson e.wf),
+    ("idsNodup", boolJson ((allIds e).eraseDups.length == (allIds e).length))])
+
+end ExRun
+
 /-! ## concurrency domain -/
 
 deriving instance FromJson, ToJson for Conc.Discipline
@@ -506,6 +735,10 @@ def handle (line : String) : String :=
       match (fromJson? j : Except String CheckerCase) with
       | .ok c => (runChecker c).compress
       | .error e => (Json.mkObj [("error", jStr s!"decode checker: {e}")]).compress
+    | .ok "expr" =>
+      match ExRun.run j with
+      | .ok r => r.compress
+      | .error e => (Json.mkObj [("error", jStr s!"expr: {e}")]).compress
     | .ok "conc" =>
       match (fromJson? j : Except String ConcCase) with
       | .ok c => (runConc c).compress
